@@ -33,9 +33,11 @@ def build_nfa(s, check=True):
         delta = defaultdict(set)
     else:
         delta = {}
+    fz = s.get('frozen')          # 'delta': transition targets are frozensets; 'all': Q, Sigma, F too (legal values of the NFA fields)
     for q, a, R in s['delta']:
-        delta[q, a] = set(R)
-    return NFA(set(s['Q']), set(s['Sigma']), delta, s['q0'], set(s['F']), s['eps'], check_validity=check)
+        delta[q, a] = frozenset(R) if fz else set(R)
+    mk = frozenset if fz == 'all' else set
+    return NFA(mk(s['Q']), mk(s['Sigma']), delta, s['q0'], mk(s['F']), s['eps'], check_validity=check)
 
 
 def canon_nfa(N, drop_empty=True):
@@ -79,8 +81,12 @@ def canon_tm(T):
 # ---------------------------------------------------------------- PDA
 def build_pda(s, check=True):
     delta = defaultdict(set) if s.get('dd', True) else {}
+    shared = {}
     for p, a, u, targets in s['delta']:
-        delta[p, a, u] = set((q, v) for q, v in targets)
+        T = set((q, v) for q, v in targets)
+        if s.get('share'):          # equal target sets under different keys are ONE set object (as after `d[k1] = d[k2] = {...}`)
+            T = shared.setdefault(frozenset(T), T)
+        delta[p, a, u] = T
     return PDA(set(s['Q']), set(s['Sigma']), set(s['Gamma']), delta, s['q0'], set(s['F']), s['eps'],
                check_validity=check)
 
